@@ -372,5 +372,5 @@ pub fn run(g: &mut Global) {
         &check,
     );
     let ml = g.tier.pick(60_000usize, 400_000usize);
-    g.random("random", g.tier.pick(480, 1600), &move || strategy(ml), &check);
+    g.random("random", g.tier.pick(480, 4000), &move || strategy(ml), &check);
 }
